@@ -88,7 +88,10 @@ template<class V, class VB> void exercise(V&& v, VB&& vb, MV const& m, MV const&
 	// real run
 	Res rr;
 	if(c.lead) { rr = run_alg(c.alg, v.begin(), v.end(), vb.begin(), vb.end(), c.mid, c.k); }
-	else { auto&& ea = v.elements(); auto&& eb = vb.elements(); rr = run_alg(c.alg, ea.begin(), ea.end(), eb.begin(), eb.end(), c.mid, c.k); }
+	else { auto&& ea = v.elements(); auto&& eb = vb.elements(); bool done = false;
+		// iterator OBJECTS that were bound to a range of other extents first and then copy-assigned (the "declare, assign later / re-use the variable" call form): the algorithm must see the assigned range
+		if(m.size[0] >= 2 && c.g->chance(1, 3)) { auto&& w = v.sliced(0, m.size[0] - 1); auto&& ew = w.elements(); if constexpr(std::is_same_v<decltype(ew.begin()), decltype(ea.begin())>) { auto t1 = ew.begin(); auto t2 = ew.end(); t1 = ea.begin(); t2 = ea.end(); count("elements-iterators-reassigned-from-another-range"); rr = run_alg(c.alg, t1, t2, eb.begin(), eb.end(), c.mid, c.k); done = true; } }
+		if(!done) rr = run_alg(c.alg, ea.begin(), ea.end(), eb.begin(), eb.end(), c.mid, c.k); }
 	// observe through raw storage + model
 	std::vector<Val> aa = read_seq(pa, m, c.lead), ab = read_seq(pb, m2, c.lead);
 	auto cmp_exact = [&](char const* what, std::vector<Val> const& got, std::vector<Val> const& want) { if(got != want) violation(K + what, std::string("viewed elements after ") + ALG[c.alg] + " differ from the std::vector run"); };
